@@ -487,7 +487,12 @@ def gen_cases(tier, rng):
 def run_case(desc):
     problems = U.validate_reference_crcs()
     if problems:
-        raise RuntimeError("reference CRC disagrees with the gateware: %r" % problems[:2])
+        # the gateware's own CRC logic no longer computes the USB 3.2 CRCs the property is stated with:
+        # headers with correct check fields would be rejected (or corrupted ones accepted)
+        return Case([0], [[0]], [[None]], [{"cycle": 0, "sig": "gateware-crc-differs-from-specification",
+                    "what": "the link-layer CRC logic of the gateware disagrees with the USB 3.2 CRC-5/CRC-16 "
+                            "definitions: %r" % (problems[:2],)}], ["crc-reference-mismatch"], desc, ["-"], ["-"],
+                    lean=False)
     dut, ins, outs = build()
     if desc.get("stimulus"):
         irows, orows = U.run_open(dut, ins, outs, desc["stimulus"])
